@@ -12,14 +12,14 @@ ALL = [json.loads(l)["id"] for l in open(os.path.join(C.VERIF, "properties.jsonl
 CLAIMS = {
     "C01": "FULL on the model for trees built from JSON/JSON5/YAML/plist documents, CSV tables, XML/HTML elements and top-level multisets: script_accounts / xml_script_accounts / mset_accounts — every child of both containers is accounted for exactly once at every nesting level, in order for lists and strings, up to permutation for mappings, for every solver answer (the model cuts an answer down to a partial injection; a non-injective real answer would show as a model/code disagreement). Needs distinct keys per mapping (true of every parsed document, proved for build). Not covered: multisets nested inside multisets.",
     "C02": "FULL on the model: zero_cost_iff_eq, eq_iff_dataEq, zero_cost_iff_dataEq (cost 0 iff equal as data against an independent specification Doc.dataEq), positive_edit_exists; XML twins incl. the witness of finding D23 (tail text dropped). exit_status_iff is definitional (exit = cost > 0); that the real command follows it is checked by the cli and matrix streams. Domain excludes NaN, -0.0 and numerically equal int/float pairs.",
-    "C03": "PARTLY definitional: for key/value, positional, multiset and fixed-key edits the model DEFINES the reported cost as the sum of the parts (mirroring the repaired code), so reported_eq_sum carries real content only for EditDistance / StringEdit (solve_total_eq_sum) and for the XML layer; that the real bounds() of every compound edit equals that sum is established by the exact correspondence (cost field of every node) and the monitor, which is what caught defects D6, D7 and finding D21. three_views_agree is a traversal identity on the model; the three real views are compared by the monitor.",
+    "C03": "PARTLY definitional: for key/value, positional, multiset and fixed-key edits the model DEFINES the reported cost as the sum of the parts (mirroring the repaired code), so reported_eq_sum carries real content only for EditDistance / StringEdit (solve_total_eq_sum) and for the XML layer; that the real bounds() of every compound edit converges to that sum is (i) proved on the operational model L3, whose machines carry the code's own bounds() formulas (matcher bounds + matched key/value edits + k cheapest/costliest or actual left-overs; the EditCollection cap): C05.mkEdit_refines_L2 shows their final value is exactly the L2 cost, and (ii) tied to the code by the exact correspondence (cost field of every node) and the monitor, which is what caught defects D6, D7 and finding D21. three_views_agree is a traversal identity on the model; the three real views are compared by the monitor.",
     "C04": "engine_protocol_docs: for every pair of JSON documents and every option set the lazy machine mkEdit (constant, key/value, string, positional list, EditDistance with its fringe sweep and freed matrix, EditCollection, WeightedBipartiteMatcher + MultiSetEdit) obeys the protocol — intervals nested, always containing the final cost, a decreasing measure, False only on a single value, strict shrinking for an observer who read bounds() — for every make_distinct oracle and every full-size admissible solver answer (OrcFull); per-class theorems editDistance_protocol, editCollection_protocol, fixedLen_protocol, matcher_protocol, multiset_protocol; mkEdit_initial_bounds. Hypotheses: distinct keys; with dict strategy none additionally Tree.fkOK on the second document (outside it the property is FALSE: finding D24). Finding D21 (duplicate multiset elements, library API only). XML / CSV-specific edit classes and IterativeTighteningSearch-based PossibleEdits are outside the L3 model (search: see C17).",
     "C05": "no_internal_error_docs, history_independent_docs, mkEdit_refines_L2: after ANY sequence of the six public operations, under either setting of quiet, no internal error occurs and finishing yields exactly L2's script and cost (toD (diffDocs o orc f t)) — for every pair of JSON documents and option set, same hypotheses as C04 (distinct keys, OrcFull, fkOK under strategy none). Colour/status settings beyond quiet are exercised by the history stream, not modelled.",
     "C06": "project_from / project_to / marks_iff on the model of the JSON colour rendering: both projections of the rendered (character, mark) sequence tokenise to the respective document up to a permutation of the members of objects (ValPerm: lists element-wise in order, atoms equal; project_*_tokens: same multiset of tokens), and marks appear iff the documents differ — unconditional for documents with distinct keys. The statement uses a tokenizer, not a JSON parser, and the ANSI-mark rendering only; the plain-text (~~ ++) rendering and the real parser are exercised by the monitor.",
     "C07": "MOSTLY RUNTIME: the only Lean obligation is a tripwire (set_sites_reviewed: the regenerated table of every iteration over a set/frozenset in the package is contained in a reviewed list, so a new hash-ordered loop breaks the build). Determinism across hash seeds and processes, absence of hidden state across invocations and non-mutation of inputs are decided on the real code by the determinism stream (PYTHONHASHSEED 0-3 / 0-8, reversed order, diff-of-diff-result snapshot). Key-order independence of the model is C08.",
     "C08": "FULL on the model: build_perm_dict / dict_perm_script (permuting keys at any depth yields the identical tree and script under the auto and match strategies), perm_equal / perm_cost_zero (every strategy), fdict_perm_cost (strategy none, any depth) and fdict_perm_pairing (strategy none, ROOT mapping only), list_swap_positive.",
     "C09": "THIN: in the model the JSON, JSON5 and YAML loaders are the same function (build) and plist adds a wrapper, so same_data_zero / third_doc_independent are consequences of C02 (equal trees cost 0) plus that modelling decision; the real content is (i) the ASSUMPTION, checked on every run, that the four real parsers return equal Python objects, (ii) the exact correspondence of the 4x4 zero-cost matrix and exit statuses incl. explicit type flags, and (iii) the witness theorem for finding D10 (plist on the to-side is a Replace).",
-    "C10": "FULL on the model at every nesting level: none_no_cross_key, none_no_multiset, auto_same_key_paired, no_list_edits_positional, no_list_edits_same_length_positional (lists and mappings built by build_tree; the list options never reach XML children or CSV rows, which is stated). The stream exercises 6 of the 16 option combinations.",
+    "C10": "FULL on the model at every nesting level: none_no_cross_key, none_no_multiset, auto_same_key_paired, no_list_edits_positional, no_list_edits_same_length_positional (lists and mappings built by build_tree; the list options never reach XML children or CSV rows, which is stated). The stream exercises all 16 combinations of the four build options.",
     "C11": "FULL on the model: string_edit_minimal, kept_longest, removed_plus_inserted_minimal, strScript_reconstructs against an independent specification (List.Sublist, lcs); the greedy matrix of EditDistance is proved to compute the optimal insert/delete distance on unit-cost characters (it is NOT optimal on weighted lists, which no property claims). str strings only (a diff of bytes raises TypeError in the code).",
     "C12": "read_print (JSON: any nesting the printer can handle, all code points incl. lone surrogates, any integer; floats opaque) and csv_read_print (cells without CR) on the model of printer and reader; JSON5 shares the JSON printer and, since the loader fix, the surrogate-joining reader. YAML, plist and XML round trips are decided on the real code only. The real printer hits Python's recursion limit at about 150-200 levels of nesting (outside the exercised domain: depth <= 30).",
     "C13": "dispatch_total / dispatch_total_from_subformatters: over the regenerated formatter registry and class MROs, the formatter dispatch finds a print_* handler for every concrete node class (plain and Edited variants) from every formatter instance — no fallback needed; edit_dispatch_total records that every edit class has a formatter method or its own print. The ~1500 lines of handler BODIES are not modelled: that half is decided on the real code by exhaustive enumeration of input type x output format x mode x colour x condensed x option flags (thorough: 17k runs). Findings D11, D18.",
